@@ -13,6 +13,7 @@ var summaryFields = map[string][]string{
 	"BatchRelease":            {"spec.releasePlan.batchPartition", "spec.releasePlan.batches", "spec.releasePlan.finalizingPolicy", "spec.releasePlan.rolloutID", "status.phase", "status.canaryStatus.currentBatch", "status.canaryStatus.batchState", "status.observedGeneration", "metadata.generation", "metadata.finalizers", "metadata.deletionTimestamp"},
 	"Deployment":              {"spec.replicas", "spec.paused", "spec.strategy", "spec.minReadySeconds", "spec.template.spec.containers", "metadata.annotations", "metadata.labels", "status.replicas", "status.updatedReplicas", "status.readyReplicas", "status.availableReplicas", "metadata.finalizers", "metadata.deletionTimestamp"},
 	"CloneSet":                {"spec.replicas", "spec.updateStrategy", "spec.minReadySeconds", "spec.template.spec.containers", "metadata.annotations", "metadata.labels", "status.replicas", "status.updatedReplicas", "status.updatedReadyReplicas", "status.readyReplicas", "status.currentRevision", "status.updateRevision"},
+	"StatefulSet":             {"spec.replicas", "spec.updateStrategy", "spec.template.spec.containers", "metadata.annotations", "metadata.labels", "status.replicas", "status.updatedReplicas", "status.readyReplicas", "status.currentRevision", "status.updateRevision"},
 	"ReplicaSet":              {"spec.replicas", "status.replicas", "spec.minReadySeconds", "status.availableReplicas", "status.readyReplicas"},
 	"Service":                 {"spec.selector"},
 	"Ingress":                 {"metadata.annotations", "spec.rules"},
